@@ -77,6 +77,7 @@ func cmdCheck(args []string) int {
 	tier := fs.String("tier", "", "quick|thorough")
 	workers := fs.Int("workers", 16, "")
 	keep := fs.Bool("keep", false, "keep going after first violation")
+	stats := fs.Bool("stats", false, "print per-job statistics")
 	fs.Parse(args[1:])
 	if *tier == "" {
 		*tier = os.Getenv("VERIF_TIER")
@@ -114,6 +115,15 @@ func cmdCheck(args []string) int {
 	}
 	s.run(*workers)
 
+	if *stats {
+		js := append([]*Job{}, jobs...)
+		sort.Slice(js, func(a, b int) bool { return js[a].paths > js[b].paths })
+		for i, j := range js {
+			if i < 25 {
+				fmt.Printf("STAT paths=%d wall=%.1fs %s\n", j.paths, j.wall.Seconds(), j.describe())
+			}
+		}
+	}
 	// ---- collect ----
 	var problems []string
 	var findings []*Finding
